@@ -152,6 +152,16 @@ type Env struct {
 	Old    map[string]string
 	// LockerLivelock is set when the locker companion exceeded LockerRPCBound
 	LockerLivelock atomic.Bool
+	// PushReads are the observations of readers that looked at the keys while the victim was committing
+	PushMu    sync.Mutex
+	PushReads []PushRead
+}
+
+// PushRead is what a reader with snapshot TS saw during the victim's commit.
+type PushRead struct {
+	TS   uint64
+	Vals map[string]string
+	Err  string
 }
 
 // NewEnv builds the universe of a shape: splits, old values committed by the observer.
